@@ -43,6 +43,8 @@ def default_meta(spec):
     lines += ['##INFO=<ID=DP,Number=1,Type=Integer,Description="Total depth">',
               '##INFO=<ID=AF,Number=A,Type=Float,Description="Allele frequency">',
               '##INFO=<ID=DB,Number=0,Type=Flag,Description="dbSNP membership">']
+    if spec.get("declare_end"):
+        lines.append('##INFO=<ID=END,Number=1,Type=Integer,Description="End position of the variant">')
     for t in (spec.get("info_tags") or (["PS"] if spec.get("info_ps") else [])):
         lines.append(f'##INFO=<ID={t},Number=1,Type=Integer,Description="An INFO field that happens to be called {t}">')
     lines += list(spec.get("generic_meta") or [])
@@ -253,6 +255,7 @@ def gen_spec(rng, profile=None):
             "info_tags": [t for t in ("PS", "HP", "PQ") if rng.random() < 0.12],
             "generic_meta": [l for l in GENERIC_META if rng.random() < 0.15],
             "formats": formats, "profile": profile, "records": [],
+            "declare_end": True,      # symbolic ALT alleles need INFO/END declared (htslib adds END while reading)
             "no_final_newline": rng.random() < 0.08,
             "channel": rng.choice(["file"] * 6 + ["stdin", "gz", "bcf", "stdin"])}
     spec["meta"] = random_meta(rng, spec)
@@ -271,6 +274,8 @@ def gen_spec(rng, profile=None):
         ref, alts = gen_alleles(rng)
         nalt = len(alts)
         info = []
+        if any(a.startswith("<") for a in alts):
+            info.append(f"END={pos + len(ref) - 1}")     # htslib would add it itself otherwise
         if rng.random() < 0.5:
             info.append(f"DP={rng.randint(1, 500)}")
         if nalt and rng.random() < 0.4:
